@@ -18,6 +18,19 @@ OWN = [
     A("msg_allocator_on_gvt", "h_on_gvt", "deferred buffers released exactly when strictly below the GVT, each once; the lazy removal loses no entry", canaries=2),
     A("msg_allocator_fini", "h_fini", "both pools emptied, every pooled buffer released once (CBMC free checks)"),
 ]
+FA = "harness/c11_array.c"
+UWA = tuple([f"{e}.{k}:18" for e in ("h_add_at", "h_push_pop", "h_remove_at", "h_truncate_lazy", "h_reserve") for k in range(4)] +
+            ["realloc.0:258", "memmove.0:130", "memmove.1:130", "h_reserve.4:4", "h_reserve.5:4"])
+def AR(name, entry, desc, canaries=1):
+    return H(name="C11.array_" + name, file=FA, entry=entry, funcs=["array_" + name], kind="bounded", bound="capacities 8 and 16 (item object of exactly that many elements), any count, any index",
+             unwindset=UWA, timeout=900, mem_gb=8, canaries=canaries, desc=desc)
+OWN = OWN + [
+    AR("add_at", "h_add_at", "insertion at any index: element placed, tail shifted by one, nothing written past the item object (also when the array is filled exactly or must grow)", canaries=3),
+    AR("push_pop", "h_push_pop", "push appends (growing when full), pop returns the last element"),
+    AR("remove_at", "h_remove_at", "removal closes the gap, returns the element, shrinks without losing content", canaries=2),
+    AR("truncate_lazy", "h_truncate_lazy", "truncate_first keeps the tail in order; lazy_remove_at moves the last element into the hole"),
+    AR("reserve", "h_reserve", "reserve guarantees room for n more elements and keeps the content"),
+]
 def _pick(pid, prefixes, tier="quick"):
     out = []
     for h in _load(pid).HARNESSES:
